@@ -389,6 +389,14 @@ class OrderAnalysis:
                     t = self.taint(node.args[0], fn)
                     if t is not None and t.kind == "U":
                         self.sink(fn, node, t, f"{name}() of an unordered container")
+                if name == "fromkeys" and node.args and isinstance(f, ast.Attribute) and unparse(f.value) in {"dict", "OrderedDict", "collections.OrderedDict"}:
+                    t = self.taint(node.args[0], fn)
+                    if t is not None and t.kind == "U":
+                        self.sink(fn, node, t, "dict.fromkeys() of an unordered container (insertion order = set order)")
+                if name in {"dict", "OrderedDict"} and node.args and isinstance(node.args[0], ast.Call) and unparse(node.args[0].func) == "zip" and node.args[0].args:
+                    t = self.taint(node.args[0].args[0], fn)
+                    if t is not None and t.kind == "U":
+                        self.sink(fn, node, t, "dict(zip(<unordered>, ...)) (insertion order = set order)")
                 if name == "join" and node.args:
                     t = self.taint(node.args[0], fn)
                     if t is not None and t.kind == "U":
